@@ -408,7 +408,19 @@ func genC15(r *rand.Rand, tier string, idx int) *World {
 	if chance(r, 0.2) {
 		tpl.NodeSelector = map[string]string{"pool": "x"}
 	}
-	e := &EDSDef{NS: "ns1", Name: "foo", Initial: "A", Templates: map[string]*TemplateDef{"A": tpl, "B": tpl.withLetter("B")}}
+	tplB := tpl.withLetter("B")
+	if chance(r, 0.5) {
+		// the canaried update itself changes node eligibility
+		switch r.IntN(3) {
+		case 0:
+			tplB.NodeSelector = map[string]string{"zone": pick(r, "a", "b")}
+		case 1:
+			tplB.Tolerate = nil
+		case 2:
+			tplB.AffinityKind = pick(r, "zoneA", "notPoolY", "hasZone")
+		}
+	}
+	e := &EDSDef{NS: "ns1", Name: "foo", Initial: "A", Templates: map[string]*TemplateDef{"A": tpl, "B": tplB}}
 	e.Strategy = StrategyDef{ReconcileFrequency: "10s", Canary: can, SlowStartIncrease: "100%", SlowStartInterval: "10s"}
 	w.EDS = []*EDSDef{e}
 	w.Extra["churn"] = fmt.Sprint(r.IntN(5))
